@@ -78,7 +78,7 @@ theorem Equiv.refl (a : Catalog) : Equiv a a := by
 
 /-- Closing and reopening yields the very same catalog: same namespaces (the change log
     `local.oplog` is one of them), same documents in natural order, same index definitions
-    (key, unique, partial incl. nil vs empty, expiry, name). -/
+    (key, unique, partial-filter incl. nil vs empty, expiry, name). -/
 theorem reload_identity (indexOk : IndexDef → List Doc → Bool) (c : Catalog) (h : WF indexOk c) :
     reload indexOk c = .ok c := by
   have hd : (buildFile c).distinct :=
@@ -224,7 +224,7 @@ example : wfEncDoc sampleDoc = true := by decide +kernel
 example : decDoc (encDoc sampleDoc) = some sampleDoc := codec_roundtrip sampleDoc (by decide +kernel)
 
 /-- A catalog with the oplog, an empty collection that only has indexes (TTL with
-    expireAfterSeconds 0 = 1ns, partial nil vs empty vs non-empty, compound key, custom name),
+    expireAfterSeconds 0 = 1ns, partial-filter nil vs empty vs non-empty, compound key, custom name),
     and a collection (whose name contains a dot) with documents. -/
 def sampleCat : Catalog :=
   [{ db := "local", coll := "oplog", docs := [[("_id", .doc [("ts", .ts 1 1)]), ("ns", .str "db.c")]], indexes := [] },
